@@ -106,6 +106,76 @@ def AllReturned (s : State) : Prop := ∀ c, s.cpc c = .idle ∨ ∃ o, s.cpc c 
 /-- every future that was created is resolved (its waiters released) -/
 def AllResolved (s : State) : Prop := ∀ f, f < s.nfut → (s.fut f).done = true ∧ (s.fut f).res.isSome = true
 
+/-! ### the invariant behind C04 and C06 -/
+
+/-- the job a worker holds -/
+def wjob : WPc → Option Job
+  | .got j | .running j | .publish j _ | .clearPred j | .wgDone j => some j
+  | _ => none
+
+/-- the worker has not yet published the result of its job -/
+def prePub : WPc → Bool
+  | .got _ | .running _ | .publish _ _ => true
+  | _ => false
+
+def planFut : Plan → FutId
+  | .ret f => f
+  | .fetch f => f
+
+/-- the future ids a client pc refers to -/
+def pcFuts : CPc → List FutId
+  | .ldUnlock _ send plan => planFut plan :: (match send with | some j => [j.fut] | none => [])
+  | .ldSend j plan _ => [planFut plan, j.fut]
+  | .fetch f _ => [f]
+  | .fetchSt f p _ => f :: p.toList
+  | .ldRet f => [f]
+  | .g2Status o => o.toList
+  | .wait f => [f]
+  | .done (.fut f) => [f]
+  | _ => []
+
+/-- what the ghost location of a future's job says about the future -/
+def StageOK (s : State) (f : FutId) : Prop :=
+  match s.jobAt f with
+  | .nowhere => False
+  | .creator _ => (s.fut f).res = none ∧ (s.fut f).done = false
+  | .chan => (s.fut f).res = none ∧ (s.fut f).done = false
+  | .worker w => (s.fut f).done = false ∧ ((s.fut f).res = none ↔ prePub (s.wpc w) = true)
+  | .finished => (s.fut f).done = true ∧ (s.fut f).res.isSome = true
+
+/-- a job refers to a load-future created for the job's key -/
+def JobOK (s : State) (j : Job) : Prop :=
+  j.fut < s.nfut ∧ (s.fut j.fut).key = j.key ∧ (s.fut j.fut).bySet = false
+
+structure Inv (cfg : Cfg) (s : State) : Prop where
+  -- allocation
+  a_map : ∀ k f, s.map k = some f → f < s.nfut
+  a_pc : ∀ c f, f ∈ pcFuts (s.cpc c) → f < s.nfut
+  a_pred : ∀ f p, f < s.nfut → (s.fut f).pred = some p → p < s.nfut
+  -- every job is well-formed, wherever it is
+  k_creator : ∀ c j, jobOf (s.cpc c) = some j → JobOK s j
+  k_chan : ∀ j, j ∈ s.chan → JobOK s j
+  k_worker : ∀ w j, wjob (s.wpc w) = some j → JobOK s j
+  -- ghost location ⇒ place (I2: every unresolved load-future has its job somewhere)
+  j_creator : ∀ f c, f < s.nfut → s.jobAt f = .creator c → ∃ j, jobOf (s.cpc c) = some j ∧ j.fut = f
+  j_chan : ∀ f, f < s.nfut → s.jobAt f = .chan → ∃ j, j ∈ s.chan ∧ j.fut = f
+  j_worker : ∀ f w, f < s.nfut → s.jobAt f = .worker w → ∃ j, wjob (s.wpc w) = some j ∧ j.fut = f
+  -- place ⇒ ghost location (… in exactly one place)
+  f_creator : ∀ c j, jobOf (s.cpc c) = some j → s.jobAt j.fut = .creator c
+  f_chan : ∀ j, j ∈ s.chan → s.jobAt j.fut = .chan
+  f_nodup : (s.chan.map (·.fut)).Nodup
+  f_worker : ∀ w j, wjob (s.wpc w) = some j → s.jobAt j.fut = .worker w
+  -- stage of the future vs. location of its job
+  stage : ∀ f, f < s.nfut → StageOK s f
+  -- locks (I1)
+  l_holder : ∀ sh c, s.lock sh = some c →
+    (∃ send plan, s.cpc c = .ldUnlock sh send plan) ∨ (∃ j plan, s.cpc c = .ldSend j plan (some sh))
+  l_fixed : cfg.old = false → ∀ c j plan lk, s.cpc c = .ldSend j plan lk → lk = none
+  -- an unresolved load-future that Set has not displaced is the entry of its key
+  o_map : ∀ f, f < s.nfut → (s.fut f).res = none → (s.fut f).orphan = false → s.map (s.fut f).key = some f
+  -- what a returned Get2 / Future.Get2 reports is the (immutable) result of a resolved future
+  r_pair : ∀ c f r, s.cpc c = .done (.pair (some f) r) → f < s.nfut ∧ (s.fut f).done = true ∧ r = (s.fut f).res
+
 def actClient? : Act → Option Cid
   | .invLoad c _ _ | .invGet2 c _ | .invSet c _ _ | .invFGet c _ | .cl c => some c
   | _ => none
